@@ -52,7 +52,15 @@ class Net(object):
         self.now += int(s)
 
     # -- socket --------------------------------------------------------------
-    def send(self, data):
+    def new_sid(self):
+        """a socket of its own (its own UDP port): replies are delivered only to the socket that sent the request -
+        two connections on one simulated machine must not see each other's datagrams (a stale reply of controller
+        A's abandoned burst would otherwise complete controller B's command with the same sequence number, which
+        real sockets cannot do)"""
+        self.n_sockets = getattr(self, "n_sockets", 0) + 1
+        return self.n_sockets
+
+    def send(self, data, sid=None):
         data = bytes(data)
         k = self.n_sent
         self.n_sent += 1
@@ -74,25 +82,35 @@ class Net(object):
             self.next_id += 1
             rc, seq = struct.unpack_from("<2H", reply, 10)
             self.dgram[did] = dict(rc=rc, seq=seq, origin_send=k, bytes=reply)
-            self.queue.append([self.now + max(int(delay), 0), self.order, did, reply])
+            self.queue.append([self.now + max(int(delay), 0), self.order, did, reply, sid])
             self.order += 1
         return len(data)
 
-    def readable(self):
-        return any(q[0] <= self.now for q in self.queue)
+    @staticmethod
+    def _for(q, sids):
+        """is the queued datagram q addressed to one of the sockets `sids`?  (None: entries queued by a harness
+        without an owner, or a caller that does not say which socket it is, see everything - the single-socket case)"""
+        owner = q[4] if len(q) > 4 else None
+        return sids is None or owner is None or owner in sids
+
+    def readable(self, sids=None):
+        return any(q[0] <= self.now and self._for(q, sids) for q in self.queue)
 
     def select(self, r, w, x, timeout=None):
         if self.limit_events is not None and len(self.log) > self.limit_events:
             raise Runaway("more than %d socket/clock events" % self.limit_events)
         if timeout is not None and timeout < 0:
             raise ValueError("timeout must be non-negative")        # what select.select does
-        if self.readable():
+        sids = set(getattr(sk, "sid", None) for sk in r)
+        if not sids or None in sids:
+            sids = None
+        if self.readable(sids):
             self.log.append(("select", True))
             return (list(r), [], [])
         target = self.now + (int(timeout) if timeout is not None else 10 ** 6)
         if float(int(timeout or 0)) != float(timeout or 0):
             target += 1   # a fractional timeout: wake up at the next tick
-        arrivals = [q[0] for q in self.queue]
+        arrivals = [q[0] for q in self.queue if self._for(q, sids)]
         if arrivals and min(arrivals) <= target:
             self.now = max(self.now, min(arrivals))
             self.log.append(("select", True))
@@ -102,9 +120,10 @@ class Net(object):
         self.log.append(("select", False))
         return ([], [], [])
 
-    def recv(self, n):
+    def recv(self, n, sid=None):
         self.recv_lengths.append(n)
-        ready = sorted(q for q in self.queue if q[0] <= self.now)
+        ready = sorted((q for q in self.queue if q[0] <= self.now and self._for(q, None if sid is None else (sid,))),
+                       key=lambda q: q[:3])
         if not ready:
             self.log.append(("recv", None))
             raise BlockingIO()
@@ -117,6 +136,7 @@ class Net(object):
 class FakeSocket(object):
     def __init__(self, net):
         self.net = net
+        self.sid = net.new_sid()
 
     def connect(self, addr):
         self.addr = addr
@@ -128,10 +148,10 @@ class FakeSocket(object):
         pass
 
     def send(self, data):
-        return self.net.send(data)
+        return self.net.send(data, self.sid)
 
     def recv(self, n):
-        return self.net.recv(n)
+        return self.net.recv(n, self.sid)
 
     def close(self):
         self.net.closed = True
